@@ -6,10 +6,12 @@ package main
 
 import (
 	"bufio"
+	"bytes"
 	"encoding/json"
 	"flag"
 	"fmt"
 	"os"
+	"os/exec"
 	"runtime/debug"
 	"sort"
 	"strconv"
@@ -35,6 +37,41 @@ type Ctx struct {
 	Cfg  map[string]string
 	Cnt  map[string]int // counters / probes, accumulated over the batch
 	Run  int
+	// IsRef: this process is a pristine reference; the workload rebuilds the run from
+	// the tape, executes only operation RefOp, answers through refAnswer and exits
+	IsRef   bool
+	RefOp   int
+	RefBase int
+}
+
+// refAnswer ends a pristine reference process with its result.
+func refAnswer(s string) {
+	out.Flush()
+	fmt.Printf("REF %s\n", strconv.Quote(s))
+	os.Exit(0)
+}
+
+// pristine runs operation op of the run described by the tape consumed so far in a fresh
+// process of this same binary (same environment) and returns what it answered.
+func pristine(c *Ctx, prop string, op, base int) (string, error) {
+	exe, err := os.Executable()
+	if err != nil {
+		return "", err
+	}
+	rec := c.T.Recorded()
+	tape, _ := json.Marshal(rec)
+	cmd := exec.Command(exe, "-prop", prop, "-tier", c.Tier, "-refop", strconv.Itoa(op), "-refbase", strconv.Itoa(base))
+	cmd.Stdin = bytes.NewReader(tape)
+	outb, err := cmd.Output()
+	if err != nil {
+		return "", fmt.Errorf("%v: %s", err, clip(string(outb), 200))
+	}
+	for _, l := range strings.Split(string(outb), "\n") {
+		if strings.HasPrefix(l, "REF ") {
+			return strconv.Unquote(l[4:])
+		}
+	}
+	return "", fmt.Errorf("no answer: %s", clip(string(outb), 200))
 }
 
 func (c *Ctx) inc(k string)        { c.Cnt[k]++ }
@@ -141,6 +178,8 @@ func main() {
 	progress := flag.Bool("progress", false, "print a line before every run (crash attribution)")
 	hashes := flag.Bool("hashes", false, "print the trace hash of every run (determinism self-test)")
 	maxSamples := flag.Int("samples", 3, "samples to keep")
+	refOp := flag.Int("refop", -1, "pristine-process reference: read a tape from stdin, rebuild the run it describes, execute only this operation and print its result")
+	refBase := flag.Int("refbase", 0, "pristine-process reference: the parent's type-name counter at the start of the run")
 	flag.Parse()
 	out = bufio.NewWriterSize(os.Stdout, 1<<16)
 	defer out.Flush()
@@ -161,6 +200,18 @@ func main() {
 	}
 	if os.Getenv("VERIF_SITEPROF") != "" {
 		simrt.SiteProf = make([]int, 8192)
+	}
+	if *refOp >= 0 {
+		var rec [4][]uint32
+		if err := json.NewDecoder(os.Stdin).Decode(&rec); err != nil {
+			fmt.Fprintln(os.Stderr, "refop: bad tape:", err)
+			os.Exit(2)
+		}
+		c := &Ctx{T: simrt.NewReplay(0, rec), Tier: *tier, Cfg: cfg, Cnt: map[string]int{}, IsRef: true, RefOp: *refOp, RefBase: *refBase}
+		simrt.ResetPools()
+		w.run(c)
+		fmt.Fprintln(os.Stderr, "refop: the workload did not answer")
+		os.Exit(2)
 	}
 	cnt := map[string]int{}
 	seen := map[uint64]struct{}{}
